@@ -1080,9 +1080,20 @@ impl ActTask for Arc<Task> {
     open spec fn init_cur(&self, a: Heap, b: Heap) -> bool { b.cur == self.id@ }
 //@@ extract file=acts/src/scheduler/process/task.rs in="impl ActTask for Arc<Task>" item="fn init" name=Arc<Task>::init props=C02,C03,C08
 //@@ opt traitpost
+//@@ proof before=emit_task#1
+                proof {
+                    //# M6-the-first-event-of-a-task-is-raised-only-by-the-call-that-initialises-it [C08]
+                    // ("at most one created message per task": an init on a task that left state none long ago reports nothing)
+                    assert(old(h).st(self.id@) is None && !st_terminal(h.st(self.id@)));
+                }
 //@@ end
-//@@ extract file=acts/src/scheduler/process/task.rs in="impl ActTask for Arc<Task>" item="fn run" name=Arc<Task>::run props=C02,C04
+//@@ extract file=acts/src/scheduler/process/task.rs in="impl ActTask for Arc<Task>" item="fn run" name=Arc<Task>::run props=C02,C04,C08
 //@@ opt traitpost
+//@@ proof before=emit_task#1
+            proof {
+                //# M6-the-event-after-running-is-raised-only-for-a-task-that-this-call-took-from-ready [C08]
+                assert(old(h).st(old(h).cur) is Ready);
+            }
 //@@ end
 //@@ extract file=acts/src/scheduler/process/task.rs in="impl ActTask for Arc<Task>" item="fn next" name=Arc<Task>::next props=C02,C01,C03
 //@@ opt traitpost attr="#[verifier::exec_allows_no_decreases_clause]"
